@@ -338,6 +338,66 @@ func VerifC04_Replace() {
 	rt.Reach("replace-end")
 }
 
+// a replace that changes the release level - also by leaving the release-level
+// option out of the new configuration - is a release-level change: the
+// effective level follows, and with it which options use their user value
+func VerifC04_ReplaceReleaseLevel() {
+	c04Reset()
+	x := addOption("x", OptTypeString, ReleaseLevel(rt.Choice("x.level", 3)), &valueCache{stringVal: "fallback"})
+	levelGetter := GetAsString(releaseLevelKey, "none")
+	xGetter := GetAsString("x", "none")
+	xConc := Concurrent.GetAsString("x", "none")
+	// before: a level set in one of the layers
+	before := rt.Choice("before.level", 3)
+	beforeDefault := rt.Bool("before.defaultlayer")
+	var err error
+	if beforeDefault {
+		err = setDefaultConfigOption(releaseLevelKey, levelName(before), false)
+	} else {
+		err = setConfigOption(releaseLevelKey, levelName(before), false)
+	}
+	rt.Assert(err == nil, "replacelevel/set-ok")
+	if rt.Bool("x.default") {
+		rt.Assert(setDefaultConfigOption("x", "default", false) == nil, "replacelevel/set-ok")
+	}
+	// the replacing configuration
+	m := map[string]interface{}{}
+	if rt.Bool("x.user") {
+		m["x"] = "user"
+	}
+	newLvl := rt.Choice("new.level", 4) // 3 = not mentioned
+	if newLvl < 3 {
+		m[releaseLevelKey] = levelName(newLvl)
+	}
+	replaceDefault := rt.Bool("replace.defaultlayer")
+	if replaceDefault {
+		_, _ = ReplaceDefaultConfig(m)
+	} else {
+		_, _ = ReplaceConfig(m)
+	}
+	// the effective level is the one the release-level option now has
+	name := levelGetter()
+	wantLevel := ReleaseLevelStable
+	switch name {
+	case ReleaseLevelNameBeta:
+		wantLevel = ReleaseLevelBeta
+	case ReleaseLevelNameExperimental:
+		wantLevel = ReleaseLevelExperimental
+	}
+	rt.Assert(getReleaseLevel() == wantLevel, "replacelevel/effective-level-matches-option-value")
+	// and the option's value follows the layering rule under that level
+	want := "fallback"
+	if x.activeDefaultValue != nil {
+		want = x.activeDefaultValue.stringVal
+	}
+	if x.activeValue != nil && x.ReleaseLevel <= wantLevel {
+		want = x.activeValue.stringVal
+	}
+	rt.Assert(xGetter() == want, "replacelevel/getter-follows-the-new-level")
+	rt.Assert(xConc() == want, "replacelevel/concurrent-getter-follows-the-new-level")
+	rt.Reach("replacelevel-end")
+}
+
 // ---- O5: currency: getters created before a change observe it afterwards ----
 
 func VerifC04_Currency() {
